@@ -214,7 +214,7 @@ def strip_ansi(s):
     return ANSI.sub("", s)
 
 
-def run_sbeppc(binary, schema_path, out_dir, extra=(), timeout=60, env=None, cwd=None):
+def run_sbeppc(binary, schema_path, out_dir, extra=(), timeout=600, env=None, cwd=None):
     cmd = [binary] + list(extra) + ["--output-dir", out_dir, schema_path]
     r = subprocess.run(cmd, stdout=subprocess.PIPE, stderr=subprocess.STDOUT, timeout=timeout, env=env, cwd=cwd)
     return r.returncode, strip_ansi(r.stdout.decode(errors="replace"))
